@@ -72,10 +72,14 @@ CompStates(v) == {cz \in Comps \X BOOLEAN :
 SelOf(op) == CASE op = "QUERY" -> {"text_select", "text_write"}
                \* prep_late_*: the connection first EXECUTEd the id while the proxy had not seen its PREPARE (a driver
                \* after a proxy restart), then PREPAREd it through the proxy: from then on the proxy knows the statement
-               [] op = "EXECUTE" -> {"prep_select", "prep_write", "prep_unknown", "prep_late_select", "prep_late_write"}
+               \* prep_ks2_*: the same statement text was prepared before on a connection without keyspace; this connection
+               \* has switched to another keyspace and prepared it again - the backend's id covers the keyspace, so it is
+               \* another id, and the proxy must know what that id is, too
+               [] op = "EXECUTE" -> {"prep_select", "prep_write", "prep_unknown", "prep_late_select", "prep_late_write",
+                                     "prep_ks2_select", "prep_ks2_write"}
                [] op = "BATCH" -> {"batch"}
                [] op = "PREPARE" -> {"text_select", "text_write"}
-IsSelect(sel) == sel \in {"text_select", "prep_select", "prep_late_select"}
+IsSelect(sel) == sel \in {"text_select", "prep_select", "prep_late_select", "prep_ks2_select"}
 
 Singletons == {{l} : l \in Levels}
 Pairs == {{a, b} : a, b \in Levels} \ Singletons
